@@ -44,3 +44,16 @@ VARIANTS += [
       find='\t\tif v.pluginManager == nil {\n', replace='\t\tnoteName(ctx, verificationPluginName)\n\t\tif v.pluginManager == nil {\n',
       edits=[(V, 'func verifyX509TrustedIdentities(', 'func noteName(ctx context.Context, n string) {\n\tlog.GetLogger(ctx).Debugf("plugin %q", n)\n}\n\nfunc verifyX509TrustedIdentities(')]),
 ]
+
+# validating wrapper + unexported worker; the worker's name parameter is validated at every call site (or not)
+UN_OLD = 'func (m *CLIManager) Uninstall(ctx context.Context, name string) error {\n\tif err := validatePluginName(name); err != nil {\n\t\treturn err\n\t}\n\tpluginDirPath, err := m.pluginFS.SysPath(name)\n'
+UN_WRAP = 'func (m *CLIManager) Uninstall(ctx context.Context, name string) error {\n\tif err := validatePluginName(name); err != nil {\n\t\treturn err\n\t}\n\treturn m.uninstall(name)\n}\n\nfunc (m *CLIManager) uninstall(name string) error {\n\tpluginDirPath, err := m.pluginFS.SysPath(name)\n'
+UN_NOWRAP = 'func (m *CLIManager) Uninstall(ctx context.Context, name string) error {\n\treturn m.uninstall(name)\n}\n\nfunc (m *CLIManager) uninstall(name string) error {\n\tpluginDirPath, err := m.pluginFS.SysPath(name)\n'
+VARIANTS += [
+ dict(name='benign-validating-wrapper-and-worker', file=M, expect='silent', find=UN_OLD, replace=UN_WRAP),
+ dict(name='worker-called-without-validation', file=M, expect='flagged(confined/(*ngo/plugin.CLIManager).uninstall)', find=UN_OLD, replace=UN_NOWRAP),
+ dict(name='worker-also-called-by-unvalidating-method', file=M, expect='flagged(confined/(*ngo/plugin.CLIManager).uninstall)', find=UN_OLD,
+      replace='func (m *CLIManager) Purge(name string) error {\n\treturn m.uninstall(name)\n}\n\n' + UN_WRAP),
+ dict(name='worker-gets-a-derived-name', file=M, expect='flagged(confined/(*ngo/plugin.CLIManager).uninstall)', find=UN_OLD,
+      replace=UN_WRAP.replace('return m.uninstall(name)', 'return m.uninstall(name + "/../x")')),
+]
